@@ -159,6 +159,8 @@ class Collector:
 
     def check(self, case, run_case):
         """Run one enumerated case (no shrinking)."""
+        if AMBIENT and isinstance(case, dict) and "amb" not in case:
+            case = dict(case, amb=AMBIENT)
         obs = run_traced(run_case, case)
         self.add(case, obs)
         for bucket, msg in self.note_handled(case, obs):
@@ -189,49 +191,74 @@ class _Fail(Exception):
 
 @contextlib.contextmanager
 def tracing(mode=True):
-    """websocket.enableTrace(True) for the duration of one case (the diagnostic code paths run; nothing is printed),
-    or, with mode "quiet", the library's logger silenced altogether (an application that wants no log output)."""
+    """The host application's diagnostics settings for the duration of one case. Modes:
+      True     websocket.enableTrace(True) (the diagnostic code paths run; nothing is printed)
+      "quiet"  the library's logger silenced altogether (an application that wants no log output)
+      "debug"  the application itself set the "websocket" logger to DEBUG through logging, without enableTrace
+      "werror" warnings promoted to errors (python -W error, pytest filterwarnings=error)
+    None of them may change anything that is judged."""
     import logging
+    import warnings
 
     import websocket
 
     h = logging.NullHandler()
     lg = logging.getLogger("websocket")
     old_level = lg.level
+    cm = contextlib.nullcontext()
     if mode == "quiet":
         lg.setLevel(logging.CRITICAL + 10)
+    elif mode == "debug":
+        lg.addHandler(h)
+        lg.setLevel(logging.DEBUG)
+    elif mode == "werror":
+        cm = warnings.catch_warnings()
     else:
         websocket.enableTrace(True, handler=h)
     try:
-        yield
+        with cm:
+            if mode == "werror":
+                warnings.simplefilter("error")
+            yield
     finally:
         websocket.enableTrace(False)
         lg.removeHandler(h)
         lg.setLevel(old_level)
 
 
+TRACE_MODES = {8: True, 9: "quiet", 10: "debug", 11: "werror"}
+
+
 def run_traced(run_case, case):
-    """Every property's cases may carry "trace": True - diagnostics switched on must not change anything that is judged."""
+    """Every property's cases may carry "trace": <mode> - the diagnostics settings must not change anything that is judged."""
+    if isinstance(case, dict) and case.get("amb") != AMBIENT:
+        raise HarnessError(f"case recorded for ambient variant {case.get('amb')!r} run in a process set up for {AMBIENT!r}")
     if isinstance(case, dict) and case.get("trace"):
         with tracing(case["trace"]):
             obs = run_case(case)
         if isinstance(obs.cls, tuple) and not any(str(c).startswith("trace:") for c in obs.cls):
-            obs.cls = obs.cls + (f"trace:{'quiet' if case['trace'] == 'quiet' else 1}",)
-        return obs
-    return run_case(case)
+            obs.cls = obs.cls + (f"trace:{1 if case['trace'] is True else case['trace']}",)
+    else:
+        obs = run_case(case)
+    if AMBIENT and isinstance(obs.cls, tuple):
+        obs.cls = obs.cls + (f"ambient:{AMBIENT}",)
+    return obs
 
 
 def with_trace(strategy):
-    """Adds the diagnostics dimension to a strategy of dict cases (default in 6 of 8 cases, trace on in 1, logger silenced in 1; shrinks to default)."""
+    """Adds the diagnostics dimension to a strategy of dict cases (default in 8 of 12 cases, one each of trace on, logger
+    silenced, logger at DEBUG, warnings as errors; shrinks to default)."""
     from hypothesis import strategies as st
 
     def mix(t):
         c, k = t
-        if k >= 6 and isinstance(c, dict) and "trace" not in c:
-            return dict(c, trace=True if k == 7 else "quiet")
+        if AMBIENT and isinstance(c, dict):
+            c = dict(c, amb=AMBIENT)
+        if k >= 8 and isinstance(c, dict) and "trace" not in c:
+            return dict(c, trace=TRACE_MODES[k])
         return c
 
-    return st.tuples(strategy, st.integers(0, 7)).map(mix)
+    return st.tuples(strategy, st.integers(0, 11)).map(mix)
 
 
 def _freeze(o):
@@ -326,18 +353,60 @@ def hyp_run(coll, strategy, run_case, seed, max_examples, shrink_cap=None, max_r
 
 # ---------------------------------------------------------------------------
 _MOD = None
+AMBIENT = None  # set in the worker processes of an ambient-variant pool (and by replay of a case recorded there)
+AMBIENTS = ("opt",)
 
 
-def _worker_init(modname, repo):
+def _install_opt():
+    """The package compiled the way `python -O` / PYTHONOPTIMIZE=1 compiles it (assert statements removed, __debug__ False).
+    sys.flags cannot change in a running interpreter, the compilation of the code under test can."""
+    import importlib.abc
+    import importlib.machinery
+
+    class OptLoader(importlib.machinery.SourceFileLoader):
+        loaded = []
+
+        def get_code(self, fullname):  # never a cached .pyc: always from the source in the tree under test
+            path = self.get_filename(fullname)
+            OptLoader.loaded.append(fullname)
+            return compile(self.get_data(path), path, "exec", dont_inherit=True, optimize=1)
+
+    class OptFinder(importlib.abc.MetaPathFinder):
+        def find_spec(self, name, path=None, target=None):
+            if name != "websocket" and not name.startswith("websocket."):
+                return None
+            spec = importlib.machinery.PathFinder.find_spec(name, path)
+            if spec is not None and isinstance(spec.loader, importlib.machinery.SourceFileLoader):
+                spec.loader = OptLoader(spec.loader.name, spec.loader.path)
+            return spec
+
+    if not any(type(f).__name__ == "OptFinder" for f in sys.meta_path):
+        sys.meta_path.insert(0, OptFinder())
+    return OptLoader
+
+
+def _worker_init(modname, repo, ambient=None):
     global _MOD
-    setup_path(repo)
+    setup_path(repo, ambient)
     import importlib
 
     _MOD = importlib.import_module(modname)
 
 
-def setup_path(repo=REPO):
+def setup_path(repo=REPO, ambient=None):
+    global AMBIENT
     sys.dont_write_bytecode = True
+    if ambient != AMBIENT:
+        if ambient not in AMBIENTS:
+            raise HarnessError(f"unknown ambient variant {ambient!r}")
+        if AMBIENT is not None:
+            raise HarnessError("one ambient variant per process")
+        for m in [m for m in sys.modules if m == "websocket" or m.startswith("websocket.") or m.startswith("wsverif.props.")]:
+            del sys.modules[m]
+        loader = _install_opt()
+        AMBIENT = ambient
+    else:
+        loader = None
     if repo not in sys.path:
         sys.path.insert(0, repo)
     deps = os.path.join(VERIF_DIR, ".deps")
@@ -348,6 +417,8 @@ def setup_path(repo=REPO):
     got = os.path.dirname(os.path.dirname(os.path.abspath(websocket.__file__)))
     if os.path.realpath(got) != os.path.realpath(repo):
         raise HarnessError(f"websocket imported from {got}, expected {repo}")
+    if loader is not None and len(loader.loaded) < 8:
+        raise HarnessError(f"ambient variant {ambient}: only {loader.loaded} were compiled by the variant loader")
 
 
 def _run_job(args):
@@ -360,8 +431,10 @@ def _run_job(args):
             for fn in job["files"]:
                 with open(fn) as f:
                     body = codec.loads(f.read())
+                if (body["case"].get("amb") if isinstance(body["case"], dict) else None) != AMBIENT:
+                    continue  # recorded under another ambient variant: replayed by that variant's pool
                 coll.check(body["case"], _MOD.run_case)
-            coll.notes["regression_cases_replayed"] = len(job["files"])
+                coll.notes["regression_cases_replayed"] = coll.notes.get("regression_cases_replayed", 0) + 1
         else:
             _MOD.run_job(job, coll)
     except BaseException:
@@ -381,14 +454,13 @@ def run_property(modname, tier, seed, procs=None, limit_s=None):
     t0 = time.time()
     jobs = mod.jobs(tier, seed)
     rdir = os.path.join(VERIF_DIR, "regressions", prop)
+    files = []
     if os.path.isdir(rdir):
         files = sorted(os.path.join(rdir, f) for f in os.listdir(rdir) if f.endswith(".json"))
         if files:
             jobs = [{"name": "regressions", "kind": "__regress__", "files": files}] + jobs
     only = os.environ.get("WSVERIF_ONLY_JOBS")  # development aid (sensitivity experiments on one stage); never set by registered commands
     if only:
-        import fnmatch
-
         jobs = [j for j in jobs if fnmatch.fnmatch(j["name"], only)]
     procs = procs or min(16, max(1, len(jobs)), os.cpu_count() or 1)
     limit_s = limit_s or (900 if tier == "quick" else 7200)
@@ -406,6 +478,27 @@ def run_property(modname, tier, seed, procs=None, limit_s=None):
             except mp.TimeoutError:
                 pool.terminate()
                 print(f"HARNESS-ERROR property={prop} wall-clock limit {limit_s}s exceeded (inconclusive)")
+                return 2
+    # ambient variants: the same check against the package as a differently configured interpreter would run it.
+    # Fresh (spawned) worker processes, because the variant has to be in place before the package is imported.
+    for amb in getattr(mod, "AMBIENTS", AMBIENTS):
+        if os.environ.get("WSVERIF_NO_AMBIENT"):  # development aid; never set by registered commands
+            break
+        ajobs = [dict(j, name=f"{amb}:{j['name']}") for j in mod.jobs("quick", seed * 31 + 7)]
+        if os.path.isdir(rdir) and files:
+            ajobs = [{"name": f"{amb}:regressions", "kind": "__regress__", "files": files}] + ajobs
+        if only:
+            ajobs = [j for j in ajobs if fnmatch.fnmatch(j["name"], only)]
+        if not ajobs:
+            continue
+        ctx = mp.get_context("spawn")
+        with ctx.Pool(min(16, len(ajobs), os.cpu_count() or 1), initializer=_worker_init, initargs=(modname, REPO, amb)) as pool:
+            ar = pool.map_async(_run_job, [(j, prop, tier, seed) for j in ajobs], chunksize=1)
+            try:
+                results += ar.get(timeout=limit_s)
+            except mp.TimeoutError:
+                pool.terminate()
+                print(f"HARNESS-ERROR property={prop} wall-clock limit {limit_s}s exceeded in ambient variant {amb} (inconclusive)")
                 return 2
     errors = [r for r in results if "error" in r]
     if errors:
@@ -542,10 +635,10 @@ def finish(mod, tier, seed, results, wall):
 def replay(modname, path):
     import importlib
 
-    setup_path(REPO)
-    mod = importlib.import_module(modname)
     with open(path) as f:
         body = codec.loads(f.read())
+    setup_path(REPO, body["case"].get("amb") if isinstance(body["case"], dict) else None)
+    mod = importlib.import_module(modname)
     obs = run_traced(mod.run_case, body["case"])
     known = Known(mod.ID)
     rc = 0
